@@ -1,8 +1,226 @@
 import SlipVerif.Model.Format
-/-! C15 — property theorems (placeholder; filled in below) -/
+import SlipVerif.Lemmas.FormatNum
+import SlipVerif.Lemmas.FormatEnglish
+/-! C15 — format renders every directive as documented: property theorems about the model
+    (`SlipVerif.Model.FormatNum`, `SlipVerif.Model.Format`), the very definitions the driver runs.
+    Theorems that are parametric in a table take the table fact as a hypothesis; the regenerated
+    tables discharge it in `Theorems/GenC15.lean`. -/
 namespace SlipVerif.Theorems.C15
 open SlipVerif.Format
 
+/-! ## ~D ~B ~O ~X ~radix R -/
+
+/-- For every base 2..36, integer, mincol, padchar, commachar (not a digit of the base), interval ≥ 1
+    and flags: the output is padding ++ sign ++ body of width max(mincol, …); the sign is `-` iff
+    n < 0 and `+` iff `@` and n ≥ 0; stripping the commas from the body and reading it in the base
+    with an independent reader gives |n| back; with `:` the commas sit exactly at the positions
+    p ≡ interval (mod interval+1) counted from the right, never in front; without `:` there are none. -/
+theorem int_directive_spec (base : Nat) (hb : 2 ≤ base ∧ base ≤ 36) (f : IntFmt) (hk : 1 ≤ f.interval)
+    (hc : ∀ d, d < base → digitChar d ≠ f.comma) (n : Int) :
+    -- shape and width
+    renderInt base f n
+        = List.replicate (f.mincol - (signOf f.atm n ++ intBody base f n).length) f.pad ++ (signOf f.atm n ++ intBody base f n)
+    ∧ (renderInt base f n).length = max f.mincol ((signOf f.atm n).length + (intBody base f n).length)
+    -- sign
+    ∧ (signOf f.atm n = [45] ↔ n < 0)
+    ∧ (signOf f.atm n = [43] ↔ (0 ≤ n ∧ f.atm = true))
+    ∧ (signOf f.atm n = [] ↔ (0 ≤ n ∧ f.atm = false))
+    -- value: strip the commas, read in the base
+    ∧ parseDigits base ((intBody base f n).filter (fun c => c != f.comma)) = some n.natAbs
+    -- grouping
+    ∧ (f.colon = false → ∀ c ∈ intBody base f n, c ≠ f.comma)
+    ∧ (f.colon = true → ∀ p, (intBody base f n).reverse[p]? = some f.comma
+          ↔ (p < (intBody base f n).length ∧ p % (f.interval + 1) = f.interval))
+    ∧ (intBody base f n).head? ≠ some f.comma := by
+  have hdig : ∀ c ∈ (digitsLE base n.natAbs).map digitChar, c ≠ f.comma :=
+    digitChars_ne_comma base f.comma hc _ (digitsLE_lt base hb.1 _)
+  have hne : (digitsLE base n.natAbs).map digitChar ≠ [] := by simp [digitsLE_ne_nil]
+  refine ⟨rfl, ?_, ?_, ?_, ?_, ?_, ?_, ?_, ?_⟩
+  · simp only [renderInt, padLeft, List.length_append, List.length_replicate]
+    omega
+  · unfold signOf
+    by_cases h : n < 0
+    · simp [h]
+    · cases hat : f.atm <;> simp [h]
+  · unfold signOf
+    by_cases h : n < 0
+    · simp [h]; omega
+    · cases hat : f.atm <;> simp [h] <;> omega
+  · unfold signOf
+    by_cases h : n < 0
+    · simp [h]; omega
+    · cases hat : f.atm <;> simp [h] <;> omega
+  · unfold intBody
+    cases hcol : f.colon
+    · simp only [Bool.false_eq_true, if_false]
+      rw [List.filter_eq_self.mpr]
+      · exact parseDigits_digits base hb _
+      · intro c hcmem
+        have := hdig c (by simpa using hcmem)
+        simpa using this
+    · simp only [if_true]
+      rw [List.filter_reverse, groupLE_filter _ _ _ _ hdig]
+      exact parseDigits_digits base hb _
+  · intro hcol c hcmem
+    unfold intBody at hcmem
+    simp only [hcol, Bool.false_eq_true, if_false] at hcmem
+    exact hdig c (by simpa using hcmem)
+  · intro hcol p
+    unfold intBody
+    simp only [hcol, if_true, List.reverse_reverse, List.length_reverse]
+    have := groupLE_comma_pos f.comma f.interval hk _ hdig 0 (Nat.zero_le _) p
+    simpa using this
+  · unfold intBody
+    cases hcol : f.colon
+    · simp only [Bool.false_eq_true, if_false]
+      rw [List.head?_reverse]
+      intro hlast
+      have hmem := List.mem_of_getLast? hlast
+      exact hdig _ hmem rfl
+    · simp only [if_true]
+      rw [List.head?_reverse, groupLE_getLast _ _ _ _ hne]
+      intro hlast
+      have hmem := List.mem_of_getLast? hlast
+      exact hdig _ hmem rfl
+
+/-- the hypotheses are satisfiable: base 16, interval 4, `_` as comma; and a concrete rendering -/
+example : (2 ≤ 16 ∧ 16 ≤ 36) ∧ (∀ d, d < 16 → digitChar d ≠ 95) := by decide
+example : renderInt 10 { mincol := 12, pad := 42, colon := true, atm := true } 1234567
+    = [42, 42, 43, 49, 44, 50, 51, 52, 44, 53, 54, 55] := by
+  simp [renderInt, padLeft, signOf, intBody, digitsLE, groupLE, digitChar]
+
+/-! ## ~@R ~:@R -/
+
+/-- table check (decided for the regenerated tables in GenC15): every 1..3999 renders to a numeral
+    that the independent reader `romanParse` reads back -/
+def romanCheck (tbl : List (List Txt)) : Bool :=
+  (List.range 3999).all (fun i =>
+    match roman tbl ((i : Int) + 1) with
+    | .ok t => romanParse t == some (i + 1)
+    | .error _ => false)
+
+/-- roman numerals have the right value (both styles: whatever table passes the check) -/
+theorem roman_value (tbl : List (List Txt)) (h : romanCheck tbl = true) (n : Int) (h1 : 1 ≤ n) (h2 : n ≤ 3999) :
+    ∃ t, roman tbl n = .ok t ∧ romanParse t = some n.toNat := by
+  unfold romanCheck at h
+  rw [List.all_eq_true] at h
+  have := h (n.toNat - 1) (by simp [List.mem_range]; omega)
+  have hn : ((n.toNat - 1 : Nat) : Int) + 1 = n := by omega
+  rw [hn] at this
+  cases hr : roman tbl n with
+  | error e => simp [hr] at this
+  | ok t =>
+    simp only [hr, beq_iff_eq] at this
+    refine ⟨t, rfl, ?_⟩
+    rw [this]
+    congr 1
+    omega
+
+/-- …and are injective on 1..3999 (a consequence of `roman_value`) -/
+theorem roman_injective (tbl : List (List Txt)) (h : romanCheck tbl = true) (a b : Int)
+    (ha : 1 ≤ a ∧ a ≤ 3999) (hb : 1 ≤ b ∧ b ≤ 3999) (hab : roman tbl a = roman tbl b) : a = b := by
+  obtain ⟨ta, hta, hpa⟩ := roman_value tbl h a ha.1 ha.2
+  obtain ⟨tb, htb, hpb⟩ := roman_value tbl h b hb.1 hb.2
+  rw [hta, htb] at hab
+  have : ta = tb := by simpa using hab
+  rw [this, hpb] at hpa
+  have : b.toNat = a.toNat := by simpa using hpa
+  omega
+
+/-- outside 1..3999 the directive is a range error, whatever the table -/
+theorem roman_range_error (tbl : List (List Txt)) (n : Int) (h : n < 1 ∨ 3999 < n) : roman tbl n = .error .range := by
+  unfold roman
+  simp [h]
+
+/-! ## ~R ~:R -/
+
+/-- table checks (decided for the regenerated tables in GenC15) -/
+def EnglishOK (T : EnglishTables) : Prop := smallOK T = true ∧ periodOK T = true
+
+/-- an independent reader of English number words inverts `cardinal n` for every integer with
+    |n| < 1000^(number of period names) — 10^66 for slip's table -/
+theorem cardinal_value (T : EnglishTables) (hT : EnglishOK T) (n : Int) (hn : n.natAbs < 1000 ^ T.periods.length) :
+    ∃ t, cardinal T n = .ok t ∧ readCardinal T t = some n := by
+  by_cases h0 : n = 0
+  · subst h0
+    refine ⟨wZero, by simp [cardinal, cardinalWords, joinWords, bind, Except.bind, pure, Except.pure], ?_⟩
+    have hsplit : splitWords wZero = [wZero] := by decide
+    unfold readCardinal
+    rw [hsplit]
+    simp
+  · have hpos : 0 < n.natAbs := by omega
+    obtain ⟨ws, hws, hne, hgood, s, hs, hsum⟩ := cardinalWords_read T hT.1 hT.2 n.natAbs hpos hn
+    have hgoodw : ∀ w ∈ ws, goodWord w = true := by
+      intro w hw; exact (List.all_eq_true.mp hgood) w hw
+    have hnb : ∀ w ∈ ws, w.contains 32 = false := fun w hw => goodWord_noblank w (hgoodw w hw)
+    by_cases hneg : n < 0
+    · refine ⟨joinWords (wNegative :: ws), by simp [cardinal, hws, hneg, bind, Except.bind, pure, Except.pure], ?_⟩
+      have hsplit : splitWords (joinWords (wNegative :: ws)) = wNegative :: ws := by
+        apply splitWords_joinWords _ (by simp)
+        intro w hw
+        rcases List.mem_cons.mp hw with rfl | hw
+        · decide
+        · exact hnb w hw
+      unfold readCardinal
+      rw [hsplit]
+      cases ws with
+      | nil => exact absurd rfl hne
+      | cons w ws' =>
+        simp only [if_true, hs, Option.map_some]
+        congr 1
+        omega
+    · refine ⟨joinWords ws, by simp [cardinal, hws, hneg, bind, Except.bind, pure, Except.pure], ?_⟩
+      have hsplit := splitWords_joinWords ws hne hnb
+      unfold readCardinal
+      rw [hsplit]
+      cases ws with
+      | nil => exact absurd rfl hne
+      | cons w ws' =>
+        have hw := hgoodw w (by simp)
+        have hwz : w ≠ wZero := by
+          intro he; subst he; simp [goodWord] at hw
+        have hwn : w ≠ wNegative := by
+          intro he; subst he; simp [goodWord] at hw
+        cases ws' with
+        | nil =>
+          simp only [hwz, if_false, hs, Option.map_some]
+          congr 1
+          omega
+        | cons w2 ws2 =>
+          simp only [hwn, if_false, hs, Option.map_some]
+          congr 1
+          omega
+
+/-- beyond the table the directive is a range error -/
+theorem cardinal_range_error (T : EnglishTables) (n : Int) (hn : n ≠ 0)
+    (h : T.periods.length < (digitsLE 1000 n.natAbs).length) : cardinal T n = .error .range := by
+  have : n.natAbs ≠ 0 := by omega
+  simp [cardinal, cardinalWords, this, h, bind, Except.bind]
+
+/-- the ordinal differs from the cardinal only in its last word, which is `ordinalWord` of the
+    cardinal's last word -/
+theorem ordinal_last_word (T : EnglishTables) (n : Nat) (ws : List Txt) (h : ordinalWords T n = .ok ws) :
+    ∃ init last o, cardinalWords T n = .ok (init ++ [last]) ∧ ordinalWord T last = .ok o ∧ ws = init ++ [o] := by
+  unfold ordinalWords at h
+  cases hc : cardinalWords T n with
+  | error e => simp [hc, bind, Except.bind] at h
+  | ok cw =>
+    simp only [hc, bind, Except.bind] at h
+    cases hl : cw.getLast? with
+    | none => simp [hl] at h
+    | some l =>
+      simp only [hl] at h
+      cases ho : ordinalWord T l with
+      | error e => simp [ho] at h
+      | ok o =>
+        simp only [ho, pure, Except.pure] at h
+        refine ⟨cw.dropLast, l, o, ?_, ho, ?_⟩
+        · congr 1
+          obtain ⟨ys, rfl⟩ := List.getLast?_eq_some_iff.mp hl
+          simp
+        · injection h with h; exact h.symm
+
+/-- destination independence: the text a stream receives is the text `(format nil …)` returns -/
 theorem dest_independent (ctrl : Txt) (args : List Arg) (pre : Txt) (t : Txt)
     (h : format .nil ctrl args = .ok { value := some t, stream := none }) :
     format (.stream pre) ctrl args = .ok { value := none, stream := some (pre ++ t) } := by
